@@ -31,6 +31,10 @@
 //             representative of a proper congruence when the expression is negative on the box
 //             (box {x = 2}, -3x - 2 = 0 (mod 4): IS_DISJOINT although -8 = 0 (mod 4)); the product ORs the claims.
 //             Checks q.relation_with_congruence.disjoint / .included.  Guard: Box pairs, proper congruences.
+//   KF-C10-6  (base level, shows through the product) BD_Shape / Octagonal_Shape::relation_with(const Congruence&)
+//             use truncating % on negative values (BD_Shape_templates.hh:1471-1485): shape {1 <= x <= 2},
+//             x - 4 = 0 (mod 3) gives IS_DISJOINT although x = 1 satisfies it.
+//             Check q.relation_with_congruence.disjoint.  Guard: BD_Shape/Octagonal_Shape pairs, proper congruences.
 #include "poly_common.hh"
 #include "reflattice_x.hh"
 #include <type_traits>
@@ -147,6 +151,7 @@ struct Prog {
   typedef Peek<D1, D2, R> P;
   static const bool G = std::is_same<D1, Grid>::value;              // grid pair: sample oracle
   static const bool BOX = std::is_same<D2, Rational_Box>::value;    // Box: generalized/bounded images avoided (KF-C03-*)
+  static const bool SHAPE = std::is_same<D2, BD_Shape<mpq_class> >::value || std::is_same<D2, Octagonal_Shape<mpq_class> >::value;
   static const bool NNC = std::is_same<D1, NNC_Polyhedron>::value && BOX;   // both components support strict constraints
   Ctx& c; Tape& t; std::string name;
   struct Obj { P p; size_t n; Snap s; bool tainted = false;   // tainted: an add_* call threw half-way (KF-C10-3)
@@ -569,6 +574,7 @@ struct Prog {
     case 9: { RCg g = gen_cg(n, wit, t.chance(50)); Poly_Con_Relation r = p.relation_with(to_ppl(g)); what = "relation_with(cg)"; std::ostringstream rs; rs << r; c.log << "  ? relation_with " << str(g) << " -> " << rs.str() << "\n";
       bool inc = r.implies(Poly_Con_Relation::is_included()), dis = r.implies(Poly_Con_Relation::is_disjoint());
       Pts m = G ? before.members(100000) : witnesses(before.I);
+      if (SHAPE && g.m != 0 && kf("KF-C10-6")) { bool bad = false; for (size_t i = 0; i < m.size(); ++i) if ((inc && !cg_holds(g, m[i])) || (dis && cg_holds(g, m[i]))) bad = true; if (bad) { c.excluded("KF-C10-6"); break; } }
       if (BOX && g.m != 0 && kf("KF-C10-5")) { bool bad = false; for (size_t i = 0; i < m.size(); ++i) if ((inc && !cg_holds(g, m[i])) || (dis && cg_holds(g, m[i]))) bad = true; if (bad) { c.excluded("KF-C10-5"); break; } }
       for (size_t i = 0; i < m.size(); ++i) {
         if (inc) c.check("q.relation_with_congruence.included", cg_holds(g, m[i]), [&] { return "is_included claimed for " + str(g) + ", refuted by " + show_pt(m[i]) + ctx(); });
